@@ -458,6 +458,17 @@ fn run<F: TopicSubscriptionFilter + Send + 'static>(filter: F, fm: FilterModel) 
             }
         }
 
+        // a mesh peer that unsubscribes is dropped from the mesh and backed off for prune_backoff (no PRUNE is exchanged)
+        if let Op::Subs(i, subs) = &op {
+            let p = peers[*i].peer;
+            for (sub, t) in subs {
+                let was = before.mesh.get(t).map(|m| m.contains(&p)).unwrap_or(false);
+                let is = after.mesh.get(t).map(|m| m.contains(&p)).unwrap_or(false);
+                if !*sub && was && !is {
+                    new_backoffs.push(((t.clone(), p), now + Duration::from_secs(prune_backoff)));
+                }
+            }
+        }
         // backoffs the node started in this step (PRUNEs it sent) count from now on
         for (k2, e) in new_backoffs {
             let x = expiry.entry(k2).or_insert(Duration::ZERO);
